@@ -537,6 +537,31 @@ func main() {
 		ov.Replace[filepath.Join(*repo, "zzvsched", rel)] = p
 		return nil
 	})
+	// legacy XOR implementation (build constraint lifted) as a virtual package
+	{
+		dir := filepath.Join(*out, "xorold")
+		_ = os.MkdirAll(dir, 0o755)
+		src, err := os.ReadFile(filepath.Join(*repo, "utils", "xor", "xor_old.go"))
+		var body string
+		if err != nil {
+			body = "package xor\n\nconst Present = false\n\nfunc XorBytes(dst, a, b []byte) int { panic(\"utils/xor/xor_old.go is not present\") }\n"
+		} else {
+			var keep []string
+			for _, ln := range strings.Split(string(src), "\n") {
+				t := strings.TrimSpace(ln)
+				if strings.HasPrefix(t, "//go:build") || strings.HasPrefix(t, "// +build") {
+					continue
+				}
+				keep = append(keep, ln)
+			}
+			body = strings.Join(keep, "\n") + "\n\nconst Present = true\n"
+		}
+		dst := filepath.Join(dir, "xor_old.go")
+		if err := os.WriteFile(dst, []byte(body), 0o644); err != nil {
+			die("%v", err)
+		}
+		ov.Replace[filepath.Join(*repo, "zzvsched", "xorold", "xor_old.go")] = dst
+	}
 	// in-package harness files
 	inRoot := filepath.Join(*verif, "inpkg")
 	filepath.Walk(inRoot, func(p string, fi os.FileInfo, err error) error {
